@@ -6,6 +6,7 @@ CONSTANTS
   DurModes = {"per", "tfhd", "trex"}
   CtsModes = {"none", "v0", "v1neg"}
   TfdtVs = {0, 1}
+  Orders = {"asc"}
   TrexPerTrack = FALSE
   MdatFirsts = {FALSE}
   Deliveries = {"one", "split"}
